@@ -73,6 +73,44 @@ theorem stop_completes_pending_work (c : Cfg) (ops : List Op) (ts : Nat) (pre : 
     (resJobs (final c (ops ++ [.stop ts pre])).log).count j = 1 :=
   exactly_one_result c _ t j h
 
+/-- the kind of each result matches what the run did: success (error) is reported exactly when the
+    coroutine of a non-raising (raising) script came to its end, in that instant, and such a run was never
+    cancelled; cancel is reported only for jobs whose coroutine never came to its end (cancelled while
+    running, or discarded before it started) -/
+theorem result_matches_run (c : Cfg) (ops : List Op) (t : Nat) (j : Job) :
+    ((t, Ev.succ j) ∈ (run c ops).log →
+      j.data.fail = false ∧ (t, Ev.done j) ∈ (run c ops).log ∧ ∀ t', (t', Ev.cancelled j) ∉ (run c ops).log) ∧
+    ((t, Ev.err j) ∈ (run c ops).log →
+      j.data.fail = true ∧ (t, Ev.done j) ∈ (run c ops).log ∧ ∀ t', (t', Ev.cancelled j) ∉ (run c ops).log) ∧
+    ((t, Ev.canc j) ∈ (run c ops).log → ∀ t', (t', Ev.done j) ∉ (run c ops).log) := by
+  have hk := run_kindOK c ops
+  have hone : (resJobs (run c ops).log).count j ≤ 1 := by
+    have := at_most_one_result_ever c ops j; omega
+  refine ⟨fun h => ?_, fun h => ?_, fun h t' hd => ?_⟩
+  · have h1 := hk t _ h
+    refine ⟨h1.1, h1.2, fun t' hc => ?_⟩
+    have h2 : (t', Ev.canc j) ∈ (run c ops).log := hk t' _ hc
+    have := two_results h h2 (by simp) rfl rfl
+    omega
+  · have h1 := hk t _ h
+    refine ⟨h1.1, h1.2, fun t' hc => ?_⟩
+    have h2 : (t', Ev.canc j) ∈ (run c ops).log := hk t' _ hc
+    have := two_results h h2 (by simp) rfl rfl
+    omega
+  · rcases (hk t' _ hd : _ ∨ _) with h2 | h2
+    · have := two_results h h2 (by simp) rfl rfl
+      omega
+    · have := two_results h h2 (by simp) rfl rfl
+      omega
+
+/-- a coroutine that is cancelled is reported cancelled in the same instant, and one that comes to its end
+    is reported as success or error in the same instant -/
+theorem run_end_is_reported (c : Cfg) (ops : List Op) (t : Nat) (j : Job) :
+    ((t, Ev.cancelled j) ∈ (run c ops).log → (t, Ev.canc j) ∈ (run c ops).log) ∧
+    ((t, Ev.done j) ∈ (run c ops).log →
+      (t, Ev.succ j) ∈ (run c ops).log ∨ (t, Ev.err j) ∈ (run c ops).log) :=
+  ⟨fun h => run_kindOK c ops t _ h, fun h => run_kindOK c ops t _ h⟩
+
 /-- wait mode: the runs start in arrival order (chronologically: started jobs, then the queued ones,
     are exactly the accepted puts in order), one at a time -/
 theorem wait_fifo_one_at_a_time (c : Cfg) (ops : List Op) (h : c.mode = Mode.wait) :
